@@ -2437,6 +2437,12 @@ func (r *stack) pop() (slice any, ok bool) {
 
 	var idx int
 
+	// the emptiness test made by the caller is not
+	// protected by the lock; repeat it here.
+	if r.ulen() == 0 {
+		return
+	}
+
 	if r.isFIFO() {
 		idx = 1
 		slice = (*r)[idx]
